@@ -6,9 +6,9 @@ package main
 //	  put k v -> ok|err   del k -> ok   get k | snapget k -> <hex>|nil   has k -> 0|1   flush -> ok|err
 //	  drop -> -   pairs -> n   sizeest -> n   batch k v k v.. (v = x: delete) -> ok|err
 //	  iter | stat | compact -> *  (race-checked only)
-//	pool (flushable.SyncedPool over a memorydb producer, stores opened and initialised by `init`):
+//	pool (flushable.SyncedPool over a memorydb producer, stores opened by `init`, underlying DBs created lazily):
 //	  put s k v | del s k | get s k | has s k   on the store handle    under s k -> GetUnderlying(s).Get
-//	  open s -> ok   names -> a,b   flush id -> ok|err   psize -> * (a sum over several objects)
+//	  stat s -> *   open s -> ok   names -> a,b   flush id -> ok|err   psize -> * (a sum over several objects)
 //	wlru (wlru.Cache, int keys): add k v w | get k | peek k | contains k | coa k v w | poa k v w | remove k |
 //	  rmoldest | getoldest | keys | len | weight | total | resize mw ms | purge   -> <ok>/<v1,v2..|->
 //	sem (datasemaphore): try n s | acq n s ms -> 0|1   rel n s | term -> -   proc | avail -> n:s
@@ -52,12 +52,9 @@ func newConObj(comp string, ps []string) conObj {
 		p := &poolObj{stores: map[string]kvdb.Store{}}
 		p.pool = flushable.NewSyncedPool(memorydb.NewProducer(fmt.Sprintf("conc-%d-%d", time.Now().UnixNano(), concCase)), []byte{0xff, 'f'})
 		for _, n := range []string{"a", "b"} {
+			// the underlying DB is created lazily by the first Flush / GetUnderlying, possibly concurrently
 			s, _ := p.pool.OpenDB(n)
 			p.stores[n] = s
-			// lazily created on first use; done here, before the object is shared
-			if _, err := p.pool.GetUnderlying(n); err != nil {
-				return nil
-			}
 		}
 		return p
 	case "wlru":
@@ -190,6 +187,12 @@ func (o *poolObj) Do(f []string) string {
 			return "err"
 		}
 		return valStr(u.Get(bkey(f[2])))
+	case "stat":
+		if s := o.stores[f[1]]; s != nil {
+			_, _ = s.Stat("x")
+			return "*"
+		}
+		return "bad-op"
 	case "open":
 		s, err := o.pool.OpenDB(f[1])
 		if err != nil || s == nil {
